@@ -6,6 +6,7 @@ those stencils at the generic edge (plus trusted finite-sum meta-lemmas, see /ve
 import z3
 
 from pyvc import sym
+from pyvc.arr import check_same
 from pyvc.harness import Unit
 from pyvc.meshmodel import compare_blocks
 from pyvc.sym import SB, SC, SI, SR, check, explore, assume
@@ -111,7 +112,7 @@ def run_build_operators(mutate=None):
             if name == "PARDISO":
                 check(f"C03.operators_object.no_stale_factorisation[{name}]", z3.BoolVal(lu is None))
             else:
-                check(f"C03.operators_object.factorisation_is_of_the_scalar_laplacian[{name}]", z3.BoolVal(isinstance(lu, Factor) and lu.matrix is ops.mu_laplacian))
+                check_same(f"C03.operators_object.factorisation_is_of_the_scalar_laplacian[{name}]", [(lu.matrix, ops.mu_laplacian)] if isinstance(lu, Factor) else [], also=isinstance(lu, Factor))
     return _run(body, mutate)
 
 
